@@ -146,23 +146,37 @@ def write_if_changed(path: Path, text: str) -> bool:
     return True
 
 
-def regenerate() -> bool:
+def regenerate(errors: dict | None = None) -> bool:
     """Rewrite Gen/Tables.v (and every Gen/T_Cxx.v produced by a harness/tables_Cxx.py plug-in, each of which
     exports `render() -> str` and `OUT_NAME`) if the content changed.  Returns True if anything was rewritten.
-    Plug-ins raise TranslatorError (import it from this module) to fail closed."""
+    Plug-ins raise TranslatorError (import it from this module) to fail closed.  With `errors` given, a failing
+    plug-in does not stop the others: its message is recorded under its OUT_NAME stem (e.g. "T_C09") and the
+    caller decides which failures concern it (the ones its Coq files depend on); without it the first failure
+    is raised."""
     import importlib
-    changed = write_if_changed(OUT, render())
+    changed = False
+    try:
+        changed = write_if_changed(OUT, render())
+    except TranslatorError as e:
+        if errors is None:
+            raise
+        errors["Tables"] = str(e)
     for plug in sorted(Path(__file__).resolve().parent.glob("tables_C*.py")):
         mod = importlib.import_module(plug.stem)
         try:
             text = mod.render()
-        except TranslatorError:
-            raise
         except Exception as e:  # any unexpected shape = fail closed
-            raise TranslatorError(f"{plug.name}: {type(e).__name__}: {e}")
+            msg = f"{plug.name}: {type(e).__name__}: {e}"
+            if errors is None:
+                raise TranslatorError(msg)
+            errors[Path(mod.OUT_NAME).stem] = msg
+            continue
         changed |= write_if_changed(OUT.parent / mod.OUT_NAME, text)
     return changed
 
 
 if __name__ == "__main__":
-    print("rewritten" if regenerate() else "unchanged")
+    errs: dict = {}
+    print("rewritten" if regenerate(errs) else "unchanged")
+    for k, v in errs.items():
+        print(f"TRANSLATOR FAILED CLOSED [{k}]: {v}")
